@@ -1137,7 +1137,7 @@ def fam_build(tier, seed):
     n = 0
 
     def add(name, base, fs, default=None):
-        s = struct(mod, name, base, fs, default=default, family="BUILD")
+        s = struct(mod, name, base, json.loads(json.dumps(fs)), default=default, family="BUILD")
         add_const_witnesses(s, seed, maxn=1)
         out.append(s)
 
@@ -1177,6 +1177,21 @@ def fam_build(tier, seed):
                                                       field("od", [(1, 1)], T_uint(1), array={"k": hlf, "stride": 2})], dflt)
                 # non-contiguous array whose elements overlap each other (stride smaller than span)
                 add("NcArrOvl%d%s" % (base, tag), base, [field("x", [(0, 0), (2, 2)], T_uint(2), array={"k": 2, "stride": 2})], dflt)
+                # the reason that rules the builder out is declared first and well-formed writable fields follow it
+                # (scalar, array, non-contiguous): whatever the generator tracks across fields must not forget it
+                if base >= 16:
+                    tail = [field("t_arr", [(8, 9)], T_uint(2), array={"k": 2, "stride": None}), field("t_s", [(12, 12)], T_bool()),
+                            field("t_nc", [(13, 13), (15, 15)], T_uint(2))]
+                    add("OvlThen%d%s" % (base, tag), base, [field("a", [(0, 4)], T_uint(5)), field("b", [(4, 7)], T_uint(4))] + tail, dflt)
+                    add("OvlThenArr%d%s" % (base, tag), base, [field("a", [(0, 4)], T_uint(5)), field("b", [(4, 7)], T_uint(4)), tail[0]], dflt)
+                    add("SelfThen%d%s" % (base, tag), base, [field("x", [(0, 3), (2, 5)], T_uint(8))] + tail, dflt)
+                    add("SelfThenArr%d%s" % (base, tag), base, [field("x", [(0, 3), (2, 5)], T_uint(8)), tail[0]], dflt)
+                    add("ArrOvlThen%d%s" % (base, tag), base, [field("x", [(0, 0), (2, 2)], T_uint(2), array={"k": 2, "stride": 2})] + tail, dflt)
+                    add("ArrOvlThenArr%d%s" % (base, tag), base, [field("x", [(0, 0), (2, 2)], T_uint(2), array={"k": 2, "stride": 2}), tail[0]], dflt)
+                    # ... and the other way round: the clean fields first, the offending one last
+                    add("ThenOvl%d%s" % (base, tag), base, tail + [field("a", [(0, 4)], T_uint(5)), field("b", [(4, 7)], T_uint(4))], dflt)
+                    # the overlap is between the first and the last field, with clean ones in between
+                    add("OvlAround%d%s" % (base, tag), base, [field("a", [(0, 4)], T_uint(5))] + tail + [field("b", [(4, 7)], T_uint(4))], dflt)
                 # a range list that names the same bits twice (accessors are outside C04; the builder must not exist)
                 add("SelfOvl%d%s" % (base, tag), base, [field("x", [(0, 3), (2, 5)], T_uint(8))], dflt)
                 add("SelfOvlB%d%s" % (base, tag), base, [field("x", [(1, 1), (1, 1)], T_uint(2)), field("y", [(4, 5)], T_uint(2))], dflt)
